@@ -52,6 +52,9 @@ fn g_client_shutdown(r: &mut Rng) -> Scenario {
 fn g_client_independent(r: &mut Rng) -> Scenario {
     Scenario::Client(client::gen(r, client::Focus::Independent))
 }
+fn g_client_faults(r: &mut Rng) -> Scenario {
+    Scenario::Client(client::gen(r, client::Focus::Faults))
+}
 fn g_client_extreme(r: &mut Rng) -> Scenario {
     Scenario::Client(client::gen(r, client::Focus::Extreme))
 }
@@ -71,6 +74,7 @@ sgen!(g_server_dups, Dups);
 sgen!(g_server_shutdown, Shutdown);
 sgen!(g_server_extreme, Extreme);
 sgen!(g_server_independent, Independent);
+sgen!(g_server_faults, Faults);
 
 fn g_bytes_roundtrip(r: &mut Rng) -> Scenario {
     Scenario::Bytes(bytes::gen_roundtrip(r))
@@ -173,11 +177,24 @@ pub fn checks() -> Vec<CheckSpec> {
             "request deadlines {expired,0,1,2,5,10,20,50 ms} x handlers finishing at D-2..D+1/never x limit on/off x sink stalls; virtual clock",
             SERVER_REAL, SERVER_STUB,
             &["timer granularity 1 ms modelled as 2 ms slack"]),
+        spec("C07", "exploration",
+            vec![gen("bytes.roundtrip", 2, g_bytes_roundtrip), gen("server.general", 1, g_server_general), gen("server.deadlines", 1, g_server_deadlines)],
+            q / 4, t / 4,
+            "request deadlines 0 ms .. 1 h (including already expired at encode time) through JSON and bincode over a SimPipe with virtual latency and through the in-memory transport; the decoded / handler-observed deadline is compared with the caller's deadline and the measured transit time; JSON requests that omit the deadline must get decode time + 10 s",
+            &["tarpc::context deadline (de)serialisation, serde_transport, wire types (real)", "BaseChannel / Requests / execute passing the request context to the handler (real)"],
+            &["byte stream: SimPipe with virtual latency", "peers and handlers: scripted"],
+            &["clock read through hook H1; all virtual instants are whole milliseconds"]),
         spec("C08", "exploration",
             vec![gen("server.general", 2, g_server_general), gen("server.dups", 3, g_server_dups), gen("server.cancel", 1, g_server_cancel), gen("server.shutdown", 1, g_server_shutdown)],
             q, t,
             "scripted peer sends fresh ids, duplicates while in flight, ids reused after their response, cancels and close; handlers complete in every order; response buffer 1,2,3,100",
             SERVER_REAL, SERVER_STUB, &["id reuse after cancel/expiry with a still-buffered response is outside the property's quantifier and excluded from response attribution"]),
+        spec("C09", "fault_enumeration",
+            vec![gen("client.faults", 1, g_client_faults), gen("server.faults", 1, g_server_faults)],
+            q, t,
+            "one injected transport failure per run at the k-th poll_ready / start_send / poll_flush / poll_close / poll_next (or end-of-stream instead of the k-th read), k drawn over the whole run, on top of the general client / server scenario space (calls blocked on the buffer, queued, in flight, replied-but-unread)",
+            BOTH_REAL, BOTH_STUB,
+            &["k is sampled per run (1..40) rather than enumerated exhaustively for one scenario"]),
         spec("C10", "exploration",
             vec![gen("client.shutdown", 2, g_client_shutdown), gen("client.abandon", 1, g_client_abandon), gen("server.shutdown", 2, g_server_shutdown), gen("server.general", 1, g_server_general)],
             q, t,
